@@ -943,17 +943,144 @@ def norm_pull(r):
     return r
 
 
-def classify(op, args, kwargs, oa, ow, slot=None):
-    """id of a catalogued defect for this divergence, or None"""
-    for f in KNOWN:
-        k = f(op, args, kwargs, oa, ow, slot)
-        if k:
-            return k
+# ---------------------------------------------------------------------------------------- catalogued defects
+SERVERHOST = 'FakedUrl:5988'
+K_HOST = 'known:mock-instance-paths-without-host-where-DSP0200-returns-INSTANCEPATH'
+K_CLASSPATH = 'known:mock-class-level-Associators-References-class-without-path'
+K_BOOL = 'known:InvokeMethod-boolean-FALSE-read-as-True'
+K_NULLENTRY = 'known:InvokeMethod-array-parameter-with-NULL-entry-AttributeError'
+K_MOCKNULL = 'known:mock-InvokeMethod-NULL-or-empty-array-keyword-parameter-rejected'
+K_EMBPATH = 'known:embedded-instance-with-path-sent-as-VALUE.OBJECTWITHLOCALPATH'
+K_SCOPEANY = 'known:qualifier-declaration-scope-ANY-false-sent-as-SCOPE-attribute'
+K_CHAR16KEY = 'known:char16-keybinding-arrives-as-string'
+WHAT = {
+    K_HOST: "FakedWBEMConnection.Associators(CIMInstanceName('C04_Base', {'Id': 'b1'})) - and every Open.../Pull... "
+            "operation that returns instances with path or instance paths, and the Iter... operations built on them - "
+            "returns instance paths with host=None, whereas the same operation over CIM-XML returns host "
+            "'FakedUrl:5988' (VALUE.OBJECTWITHPATH, VALUE.INSTANCEWITHPATH and INSTANCEPATH always carry a host) and "
+            "the mock's own AssociatorNames/References/ReferenceNames fill in the host",
+    K_CLASSPATH: "FakedWBEMConnection.Associators('C04_Base') and References('C04_Base') return (classpath, class) "
+                 "tuples whose class.path is None; WBEMConnection documents ('with its path attribute set to the "
+                 "classpath tuple item') and over CIM-XML returns class.path == classpath",
+    K_BOOL: "WBEMConnection.InvokeMethod('Echo', 'C04_Sub', p_boolean=False) against a server that echoes the "
+            "parameter returns outparams['p_boolean'] == True (also [False] -> [True], and a boolean return value "
+            "False -> True): _methodcall() types the response with cimvalue('FALSE', 'boolean'), which is bool('FALSE')",
+    K_NULLENTRY: "WBEMConnection.InvokeMethod('Echo', 'C04_Sub', pa_boolean=[False, None]) raises AttributeError "
+                 "\"'NoneType' object has no attribute 'nodeType'\" while building the request (paramvalue() in "
+                 "_methodcall() returns None for a None entry instead of VALUE.NULL); the same call on "
+                 "FakedWBEMConnection succeeds and echoes [False, None]",
+    K_MOCKNULL: "FakedWBEMConnection.InvokeMethod('Echo', 'C04_Sub', p_boolean=None) raises TypeError and "
+                "InvokeMethod('Echo', 'C04_Sub', pa_boolean=[]) raises ValueError in _mock_methodcall() (cimtype() of "
+                "the value), whereas WBEMConnection sends the parameter as PARAMVALUE without PARAMTYPE and the call "
+                "succeeds: _mock_methodcall() does not perform 'the same checks and transformations as _methodcall()'",
+    K_EMBPATH: "WBEMConnection.CreateInstance(CIMInstance('C04_Sub', {'Id': 'w', 'Emb': CIMProperty('Emb', <CIMInstance "
+               "C04_Other with path.namespace set>, embedded_object='instance')})) sends the embedded instance as "
+               "VALUE.OBJECTWITHLOCALPATH inside the property value, which pywbem's own parser rejects ('Invalid "
+               "top-level element'); directly the instance is created",
+    K_SCOPEANY: "EnumerateQualifiers() / GetQualifier('Key') on a repository compiled from MOF fail over CIM-XML with "
+                "CIMXMLParseError \"Element 'SCOPE' has invalid attribute(s) ANY\": CIMQualifierDeclaration.tocimxml() "
+                "writes ANY=\"false\" for scopes={'ANY': False, ...}; directly the declarations are returned",
+    K_CHAR16KEY: "GetInstance(CIMInstanceName('C04_Base', {'Id': Char16('b')})): the server receives the key value as "
+                 "str 'b' (KEYVALUE TYPE=\"char16\" is read back as string), directly it receives Char16('b')",
+}
+HOST_OPS = ('Associators', 'OpenEnumerateInstances', 'OpenEnumerateInstancePaths', 'OpenAssociatorInstances',
+            'OpenAssociatorInstancePaths', 'OpenReferenceInstances', 'OpenReferenceInstancePaths',
+            'PullInstancesWithPath', 'PullInstancePaths', 'IterEnumerateInstances', 'IterEnumerateInstancePaths',
+            'IterAssociatorInstances', 'IterAssociatorInstancePaths', 'IterReferenceInstances',
+            'IterReferenceInstancePaths')
+
+
+def has_none_entry(v):
+    return isinstance(v, list) and any(e is None for e in v)
+
+
+def invoke_values(args, kwargs):
+    vals = list(kwargs.values())
+    for p in (args[2] if len(args) > 2 and isinstance(args[2], (list, tuple)) else []):
+        if isinstance(p, CIMParameter):
+            vals.append(p.value)
+        elif isinstance(p, tuple) and len(p) == 2:
+            vals.append(p[1])
+    return vals
+
+
+def embedded_with_path(o, inside=False):
+    if isinstance(o, (list, tuple)):
+        return any(embedded_with_path(e, inside) for e in o)
+    if isinstance(o, CIMInstance):
+        return (inside and o.path is not None) or any(embedded_with_path(p.value, True) for p in o.properties.values())
+    return False
+
+
+def classify(op, args, kwargs, oa, ow, d):
+    """id of the catalogued defect that explains this divergence, or None.  d: (slot, direct, wire, where) or None"""
+    slot = d[0] if d else ''
+    if oa[0] == 'ok' and ow[0] == 'ok' and d:
+        if op in HOST_OPS and slot.endswith('CIMInstanceName.host:class') and d[1].startswith('NoneType') and \
+                d[2] == 'str ' + repr(SERVERHOST) and '.properties' not in d[3] and '.keybindings' not in d[3]:
+            return K_HOST
+        if op in ('Associators', 'References', 'IterAssociatorInstances', 'IterReferenceInstances') and \
+                slot.endswith('[][]/CIMClass.path:class') and d[1].startswith('NoneType'):
+            return K_CLASSPATH
+        if op == 'InvokeMethod' and d[1] is False and d[2] is True and slot.startswith('result[]') and \
+                '/' not in slot:
+            return K_BOOL
+        if slot.startswith('seen-') and '.keybindings:class' in slot and d[1].startswith('Char16') and \
+                d[2].startswith('str'):
+            return K_CHAR16KEY
+    if oa[0] == 'cim' and ow[0] == 'cim' and d and d[0].startswith('seen-') and '.keybindings:class' in d[0] and \
+            d[1].startswith('Char16') and d[2].startswith('str'):
+        return K_CHAR16KEY
+    if op == 'InvokeMethod' and ow[0] == 'exc' and ow[1] == 'AttributeError' and "'nodeType'" in ow[2] and \
+            ow[3][-1] == 'appendChild' and any(has_none_entry(v) for v in invoke_values(args, kwargs)):
+        return K_NULLENTRY
+    if op == 'InvokeMethod' and oa[0] == 'exc' and oa[1] in ('TypeError', 'ValueError') and 'cimtype' in oa[3] and \
+            ow[0] in ('ok', 'cim') and any(v is None or v == [] for v in kwargs.values()):
+        return K_MOCKNULL
+    if ow[0] == 'facade' and ow[1] == 'request-not-parsable' and "Invalid top-level element 'VALUE.OBJECTWITH" in ow[2] \
+            and embedded_with_path(args):
+        return K_EMBPATH
+    if op in ('EnumerateQualifiers', 'GetQualifier') and oa[0] == 'ok' and ow[0] == 'exc' and \
+            ow[1] == 'CIMXMLParseError' and "Element 'SCOPE' has invalid attribute(s)" in ow[2] and "'ANY'" in ow[2]:
+        return K_SCOPEANY
     return None
 
 
-KNOWN = []
-WHAT = {}
+def fix_host(ra, rw):
+    """after K_HOST: leave the host of the returned objects' own paths out of the rest of the comparison"""
+    def strip(o):
+        if isinstance(o, (list, tuple)):
+            for e in o:
+                strip(e)
+        elif isinstance(o, CIMInstance) and o.path is not None:
+            o.path.host = None
+        elif isinstance(o, CIMInstanceName):
+            o.host = None
+    ra, rw = copy.deepcopy(ra), copy.deepcopy(rw)
+    strip(ra)
+    strip(rw)
+    return ra, rw
+
+
+def fix_classpath(ra, rw):
+    rw = copy.deepcopy(rw)
+    for x, y in zip(ra, rw):
+        if isinstance(x, tuple) and isinstance(y, tuple) and x[1].path is None:
+            y[1].path = None
+    return ra, rw
+
+
+def fix_bool(ra, rw):
+    def fix(x, y):
+        if isinstance(x, list) and isinstance(y, list) and len(x) == len(y):
+            return [fix(a, b) for a, b in zip(x, y)]
+        return False if (x is False and y is True) else y
+    ret = fix(ra[0], rw[0])
+    out = NocaseDict([(k, fix(ra[1][k], v) if k in ra[1] else v) for k, v in rw[1].items()])
+    return ra, (ret, out)
+
+
+FIXUPS = {K_HOST: fix_host, K_CLASSPATH: fix_classpath, K_BOOL: fix_bool}
 
 
 def step(p, fam, op, args, kwargs, label=None, wire_args=None):
@@ -970,66 +1097,77 @@ def step(p, fam, op, args, kwargs, label=None, wire_args=None):
         _ops.wbem_request = old
     desc = dict(op=op, args=short((args, kwargs), 500), default_namespace=p.default_ns, direct=show(oa), wire=show(ow))
 
-    def report(vid, slot=None, **more):
-        k = classify(op, args, kwargs, oa, ow, slot)
+    def report(vid, d=None, **more):
+        """-> id of the catalogued defect, or None after recording vid"""
+        k = classify(op, args, kwargs, oa, ow, d)
+        if d:
+            more = dict(more, direct_value=d[1], wire_value=d[2], where=d[3])
         if k:
             violation(k, what=WHAT[k], **dict(desc, **more))
         else:
             violation(vid, **dict(desc, **more))
+        return k
+    comparable = True
     if oa[0] != ow[0]:
         names = {'ok': 'returns', 'cim': 'CIMError', 'facade': 'request-or-response-not-DSP0200'}
         report('%s-direct-%s-wire-%s' % (op, names.get(oa[0], oa[1]),
                                          ow[1] if ow[0] in ('exc', 'facade') else names.get(ow[0])))
+        comparable = False
     elif oa[0] == 'cim':
         if oa[1] != ow[1]:
             report('%s-status-code-differs' % op)
     elif oa[0] == 'exc':
         if oa[1] != ow[1]:
             report('%s-exception-class-differs[%s->%s]' % (op, oa[1], ow[1]))
+            comparable = False
     elif oa[0] == 'ok':
-        d = result_diff(norm_pull(oa[1]), norm_pull(ow[1]))
-        if d:
-            report('%s-%s' % (op, d[0]), slot=d[0], direct_value=d[1], wire_value=d[2], where=d[3])
+        ra, rw = norm_pull(oa[1]), norm_pull(ow[1])
+        for _ in range(4):
+            d = result_diff(ra, rw)
+            if not d:
+                break
+            k = report('%s-%s' % (op, d[0]), d)
+            if k not in FIXUPS:
+                break
+            ra, rw = FIXUPS[k](ra, rw)
     # what the server saw
     sa, sw = p.seen_a, p.facade.seen
     if (sa is None) != (sw is None):
-        if oa[0] == ow[0] or (oa[0], ow[0]) == ('cim', 'ok') or (oa[0], ow[0]) == ('ok', 'cim'):
+        if comparable:
             report('%s-request-%s' % (op, 'not-sent-on-the-wire' if sw is None else 'sent-only-on-the-wire'))
     elif sa is not None:
         if sa[0] != sw[0] or sa[1] != sw[1]:
             report('%s-server-saw-other-operation' % op, server_direct=sa[:2], server_wire=sw[:2])
         elif sa[0] == 'imethod':
             if sa[2] != sw[2]:
-                report('%s-server-saw-other-namespace' % op, slot='seen-namespace', server_direct=sa[2],
-                       server_wire=sw[2])
+                report('%s-server-saw-other-namespace' % op, ('seen-namespace', sa[2], sw[2], ''))
             elif sorted(sa[3]) != sorted(sw[3]):
-                report('%s-server-saw-other-parameter-names' % op, slot='seen-names', server_direct=sorted(sa[3]),
-                       server_wire=sorted(sw[3]))
+                report('%s-server-saw-other-parameter-names' % op, ('seen-names', sorted(sa[3]), sorted(sw[3]), ''))
             else:
                 for n in sa[3]:
                     va, vw = sa[3][n], sw[3][n]
                     if isinstance(va, tuple) and isinstance(vw, list):
                         va = list(va)       # PropertyList=('a', 'b'): the kind of sequence is not transmitted
+                    if n == 'EnumerationContext' and wire_args is not None:
+                        continue            # each side was given the context its own server handed out
                     d = result_diff(va, vw)
                     if d:
                         report('%s-server-saw-other-%s-%s' % (op, n, d[0].replace('result', 'value')),
-                               slot='seen-' + n + '-' + d[0], server_direct=d[1], server_wire=d[2], where=d[3])
+                               ('seen-%s-%s' % (n, d[0]),) + tuple(d[1:]))
                         break
         else:
             d = result_diff(sa[2], sw[2])
             if d:
-                report('%s-server-saw-other-target-%s' % (op, d[0]), slot='seen-target', server_direct=d[1],
-                       server_wire=d[2])
+                report('%s-server-saw-other-target-%s' % (op, d[0]), ('seen-target-' + d[0],) + tuple(d[1:]))
             else:
                 d = result_diff(NocaseDict(sa[3]), NocaseDict(sw[3]))
                 if d:
                     report('%s-server-saw-other-parameters-%s' % (op, d[0].replace('result', 'value')),
-                           slot='seen-params-' + d[0], server_direct=d[1], server_wire=d[2], where=d[3])
+                           ('seen-params-' + d[0],) + tuple(d[1:]))
     if op in WRITERS or oa[0] != ow[0]:
         d = p.repo_diff()
         if d:
-            report('%s-repositories-differ-afterwards-%s' % (op, d[0].split(' ')[0]), slot='repo',
-                   repository_slot=d[0], direct_value=d[1], wire_value=d[2], where=d[3])
+            report('%s-repositories-differ-afterwards-%s' % (op, d[0].split(' ')[0]), ('repo-' + d[0],) + tuple(d[1:]))
             p.broken = True
     return oa, ow
 
